@@ -35,6 +35,15 @@ CLEAR_METALS = set(range(3, 5)) | {11, 12, 13} | set(range(19, 32)) | set(range(
 CLEAR_NONMETALS = {1, 2, 6, 7, 8, 9, 10, 15, 16, 17, 18, 34, 35, 36, 53, 54, 86, 118}
 
 
+class RingSetDisagrees(Exception):
+    pass
+
+
+# chelates: cycles closed only through coordinate bonds next to real rings of the same or a larger size
+CHELATES = ['c1ccc2c(c1)N~[Cu]~N2', 'c1ccc2c(c1)O~[Cu]~O2', 'C1CCC2C(C1)N~[Ni]~N2', 'C1CCCC2C1S~[Hg]~S2', 'c1ccc2c(c1)C=N~[Cu]~O2', 'C1CCCCCC1N~[Cu]~O',
+            '[Cu]1~NCCN~1', 'Cl[Pt]1(Cl)~NCCN~1', 'c1ccn2~[Pd]~n3ccccc3-c2c1', 'C1CN~[Ni]2(~N1)~NCCN~2', 'c1ccc2c(c1)N~[Zn]~N2.c1ccccc1', 'C1CC1C1N~[Cu]~NC1C1CC1']
+
+
 def attributes(m):
     """independent attribute table from the raw graph"""
     adj = {n: {k for k, b in ms.items() if b.order != 8} for n, ms in m._bonds.items()}
@@ -55,6 +64,10 @@ def attributes(m):
         else:
             z = 1
         in_ring = any((min(n, k), max(n, k)) not in br for k in adj[n])
+        if in_ring != bool(ring_sizes.get(n)):
+            # every bond that is not a bridge lies in a cycle of any cycle basis: an atom of a cycle without a ring size (or the
+            # reverse) means the ring set the primitives read from does not belong to these bonds
+            raise RingSetDisagrees('atom %d: %s a cycle of the covalent bonds, ring sizes %r' % (n, 'on' if in_ring else 'not on', sorted(ring_sizes.get(n, ()))))
         out[n] = {'Z': a.atomic_number, 'iso': a.isotope, 'charge': a.charge, 'rad': a.is_radical, 'D': len(orders),
                   'x': sum(1 for k in adj[n] if m._atoms[k].atomic_number not in (1, 6)), 'z': z, 'h': a.implicit_hydrogens,
                   'r': ring_sizes.get(n, set()), 'in_ring': in_ring}
@@ -147,7 +160,12 @@ def run_atom_query(ctx, text, q, m, mname, want, kinds, via):
 
 
 def atom_queries(ctx, m, mname, rng):
-    attrs, battrs = attributes(m)
+    try:
+        attrs, battrs = attributes(m)
+    except RingSetDisagrees as e:
+        ctx.violation('ring-primitives-read-a-ring-set-of-other-bonds', '%s: %s' % (mname, e), {'molecule': mname})
+        return
+    ctx.count('molecules.ring-set-consistent')
     if any(r['h'] is None for r in attrs.values()):
         ctx.count('molecules.with-unknown-h')
     atoms = list(m._atoms)
@@ -488,7 +506,8 @@ def worker(ctx):
     c = T.corpus()
     ids = list(range(len(c)))
     _random.Random(ctx.seed).shuffle(ids)
-    src = [c[i] for k, i in enumerate(ids[:cfg['n_mols']]) if ctx.mine(k)] + [s for k, (s, _) in enumerate(G.special()) if ctx.mine(k)]
+    src = [s for k, s in enumerate(CHELATES) if ctx.mine(k)]
+    src += [c[i] for k, i in enumerate(ids[:cfg['n_mols']]) if ctx.mine(k)] + [s for k, (s, _) in enumerate(G.special()) if ctx.mine(k)]
     for s in src:
         if ctx.out_of_time():
             ctx.note('time budget reached')
